@@ -11,7 +11,7 @@
 //! chronyd absent: the poller's request fails at once.  chronyd hung: its socket exists and queues
 //! requests nobody answers, so the poller sits in each request for the client's time-out (3 x 1 s)
 //! and is not at its mailbox when another thread dies.
-//! -> fired=<0|1> returned=<0|1> ms_after_death=<n> total_ms=<n> died_before_the_fault=<0|1>  (fired: a worker died, by the
+//! -> fired=<0|1> returned=<0|1> ms_after_death=<n> total_ms=<n> died_before_the_fault=<0|1> segment_generation=<n>  (fired: a worker died, by the
 //!    armed fault or - seen as a drop in the number of threads - for a reason of its own)
 use crate::util::p;
 use clock_bound_d::verif_fault::{self, Fault};
@@ -172,7 +172,12 @@ pub fn run(toks: &[&str]) -> String {
         (None, Some(_)) if fired => 0, // death and return inside one polling tick
         _ => -1,
     };
-    format!("fired={} returned={} ms_after_death={} total_ms={} died_before_the_fault={}", fired as u8, returned_at.is_some() as u8, ms, t0.elapsed().as_millis(), died_otherwise as u8)
+    // what the daemon left in the segment file: the generation (-1: no such file, or shorter than its header)
+    let gen = match std::fs::read("/var/run/clockbound/shm") {
+        Ok(b) if b.len() >= 16 => u16::from_ne_bytes([b[14], b[15]]) as i64,
+        _ => -1,
+    };
+    format!("fired={} returned={} ms_after_death={} total_ms={} died_before_the_fault={} segment_generation={}", fired as u8, returned_at.is_some() as u8, ms, t0.elapsed().as_millis(), died_otherwise as u8, gen)
 }
 
 fn ntasks() -> usize {
